@@ -237,6 +237,22 @@ static void resend_scenarios(const std::string& which)
 		resend(f, 2, 2, 0);
 		check_answer(f, "open range over a store with a gap (4, 5 were admin messages)", { 2, 3, 6, 7 }, 2, 0, nb);
 	}
+	if (which == "resend_last" || which == "resend")
+	{
+		Fx f; f.logon(1); send_orders(f, 4);	// 2..5 stored
+		const unsigned nb = f.ss->get_next_send_seq();
+		f.conn->_output.clear();
+		resend(f, 2, 5, 0);
+		check_answer(f, "open range starting at the newest stored record", { 2, 3, 4, 5 }, 5, 0, nb);
+	}
+	if (which == "resend_single" || which == "resend")
+	{
+		Fx f; f.logon(1); send_orders(f, 4);	// 2..5 stored
+		const unsigned nb = f.ss->get_next_send_seq();
+		f.conn->_output.clear();
+		resend(f, 2, 3, 3);
+		check_answer(f, "range of exactly one stored record", { 2, 3, 4, 5 }, 3, 3, nb);
+	}
 	if (which == "resend_late_start" || which == "resend")
 	{
 		Fx f; f.logon(1); f.ss->send(new Heartbeat); f.ss->send(new Heartbeat);	// 2, 3: admin
